@@ -216,7 +216,7 @@ func gen(t *rapid.T) Case {
 			fl := fmt.Sprintf("%s_f%d", l, k)
 			e, cls := g.typeExpr(fl, 0, false)
 			field := fmt.Sprintf("F%d", g.seq)
-			tagKind := pick(t, fl+"_tag", []string{"none", "none", "rename", "rename", "omitempty", "omitempty-only", "dash", "string", "unexported", "ignore"})
+			tagKind := pick(t, fl+"_tag", []string{"none", "none", "rename", "rename", "omitempty", "omitempty-only", "dash", "string", "string-only", "string-omitempty", "unexported", "ignore"})
 			jn := field
 			tag := ""
 			switch tagKind {
@@ -238,6 +238,17 @@ func gen(t *rapid.T) Case {
 					jn = fmt.Sprintf("f%dStr", g.seq)
 					tag = fmt.Sprintf("`json:\"%s,string\"`", jn)
 					cls += ",string"
+				}
+			case "string-only":
+				if stringable(cls) {
+					tag = "`json:\",string\"`"
+					cls += ",string"
+				}
+			case "string-omitempty":
+				if stringable(cls) {
+					jn = fmt.Sprintf("f%dStrOpt", g.seq)
+					tag = fmt.Sprintf("`json:\"%s,omitempty,string\"`", jn)
+					cls += ",string,omitempty"
 				}
 			case "unexported":
 				field = fmt.Sprintf("f%d", g.seq)
@@ -675,6 +686,25 @@ func check(c Case) (o pbt.Outcome) {
 			continue
 		}
 		o.NT(m.Class + "|" + fieldKey(m))
+		// numeric formats must denote the range of the Go kind
+		if props, ok := def["properties"].(J); ok {
+			for _, f := range m.Fields {
+				kind := strings.SplitN(f.Class, ",", 2)[0]
+				want, isNum := numericFormat[kind]
+				if !isNum {
+					continue
+				}
+				pj, _ := props[f.JSONName].(J)
+				if pj == nil {
+					continue // embedded / ignored: covered by the encoding oracle
+				}
+				o.Evals++
+				got, _ := pj["format"].(string)
+				if got != want {
+					o.Fail("C16|numeric-format-differs|"+kind, "field %s.%s of Go kind %s is described with format %q, its range is that of %q\ndefinition: %s", m.Name, f.JSONName, kind, got, want, short(pj))
+				}
+			}
+		}
 		for v := 0; v < 3; v++ {
 			r := resps[i]
 			i++
@@ -881,6 +911,13 @@ func kindOf(v any) string {
 		return "object"
 	}
 	return fmt.Sprintf("%T", v)
+}
+
+// numericFormat: the Swagger format whose range is that of the Go kind (int and uint are 64 bits wide on the platforms go-swagger targets).
+var numericFormat = map[string]string{
+	"int": "int64", "int8": "int8", "int16": "int16", "int32": "int32", "int64": "int64", "rune": "int32",
+	"uint": "uint64", "uint8": "uint8", "uint16": "uint16", "uint32": "uint32", "uint64": "uint64", "byte": "uint8",
+	"float32": "float", "float64": "double",
 }
 
 func fieldKey(m ModelInfo) string {
